@@ -97,6 +97,37 @@ func (c01) Run(c Case, env *Env) Result {
 			continue
 		}
 		res.Max("wire_bytes", int64(len(o.Wire)))
+		// the same value with a name map that registers classes only: every slice travels as an
+		// UNTYPED list and is converted to the field's type by the decoder
+		if j%3 == 1 && !nestedSliceType(reflect.TypeOf(val), 0) {
+			if rv := reflect.ValueOf(val); rv.Kind() == reflect.Struct || (rv.Kind() == reflect.Ptr && rv.Elem().Kind() == reflect.Struct) {
+				nmU := copyNames(o.NameMap)
+				for k, v := range nmU {
+					if len(k) > 0 && k[0] == '[' || len(v) > 0 && v[0] == '[' {
+						delete(nmU, k)
+					}
+				}
+				pi, _ := Guard(func() {
+					b, err := hessian.ToBytes(val, nmU)
+					if err != nil {
+						viol("untyped:enc-error", err.Error())
+						return
+					}
+					d, err := hessian.ToObject(b, o.TypMap)
+					if err != nil {
+						viol("untyped:dec-error", fmt.Sprintf("(%s) %v", hexClip(b), err))
+						return
+					}
+					if m := zoo.Equiv(val, d, zoo.EquivOpts{}); m != "" {
+						viol("untyped:mismatch", fmt.Sprintf("%s; wire %s", m, hexClip(b)))
+					}
+				})
+				if pi != nil {
+					viol("untyped:panic", pi.Class+": "+pi.Msg)
+				}
+				res.Count("roundtrips_with_untyped_lists", 1)
+			}
+		}
 		if sharedSer != nil {
 			pi, _ := Guard(func() {
 				b, err := sharedSer.ToBytes(val)
@@ -356,6 +387,42 @@ func multiMap(v reflect.Value, seen map[uintptr]bool) bool {
 		}
 		for i := 0; i < v.NumField(); i++ {
 			if multiMap(v.Field(i), seen) {
+				return true
+			}
+		}
+	}
+	return false
+}
+
+// nestedSliceType: does the type contain a slice or map whose element is itself a slice (other
+// than []byte)?  An UNTYPED list can be converted to its destination only one level deep (the
+// inner list has no destination type to go by), so the untyped variant leaves such types alone.
+func nestedSliceType(t reflect.Type, depth int) bool {
+	if depth > 8 {
+		return false
+	}
+	isList := func(x reflect.Type) bool {
+		for x.Kind() == reflect.Ptr {
+			x = x.Elem()
+		}
+		return (x.Kind() == reflect.Slice || x.Kind() == reflect.Array) && x.Elem().Kind() != reflect.Uint8
+	}
+	switch t.Kind() {
+	case reflect.Ptr:
+		return nestedSliceType(t.Elem(), depth+1)
+	case reflect.Slice, reflect.Array:
+		if t.Elem().Kind() == reflect.Uint8 {
+			return false
+		}
+		return isList(t.Elem()) || nestedSliceType(t.Elem(), depth+1)
+	case reflect.Map:
+		return isList(t.Elem()) || isList(t.Key()) || nestedSliceType(t.Elem(), depth+1)
+	case reflect.Struct:
+		if t == zoo.TimeType {
+			return false
+		}
+		for i := 0; i < t.NumField(); i++ {
+			if nestedSliceType(t.Field(i).Type, depth+1) {
 				return true
 			}
 		}
